@@ -69,15 +69,34 @@ def _token(t):
     return zlib.crc32(str(t).encode()) & 0xFFFFFFFF
 
 
+class TerminalLike(io.StringIO):
+    """A swallowing stdout that says it is a terminal (as in an interactive session)."""
+
+    def isatty(self):
+        return True
+
+
 @contextlib.contextmanager
-def quiet():
-    """Swallow the library's progress chatter (it prints from the MC loop)."""
+def quiet(tty=False):
+    """Swallow the library's progress chatter (it prints from the MC loop).  With tty=True the stand-in for stdout
+    answers isatty() like a terminal does: what the library computes does not depend on where its chatter goes."""
     old = sys.stdout
-    sys.stdout = io.StringIO()
+    sys.stdout = TerminalLike() if tty else io.StringIO()
     try:
         yield
     finally:
         sys.stdout = old
+
+
+@contextlib.contextmanager
+def other_stdout():
+    """The other kind of stdout than the current one (terminal-like <-> captured) for the duration of the block."""
+    try:
+        now = bool(sys.stdout.isatty())
+    except Exception:  # noqa
+        now = False
+    with quiet(tty=not now):
+        yield
 
 
 class Ctx:
@@ -142,7 +161,7 @@ class Ctx:
             self.violations[mechanism] = {
                 'count': 1, 'message': message + (' [interpreter without assert statements: PYTHONOPTIMIZE=1]' if sys.flags.optimize else ''),
                 'case': jsonable(case if case is not None else self.current_case),
-                'witness': jsonable(witness), 'optimize': int(sys.flags.optimize)}
+                'witness': jsonable(witness), 'optimize': int(sys.flags.optimize), 'tty': bool(getattr(self, 'case_tty', False))}
         else:
             v['count'] += 1
 
@@ -301,7 +320,7 @@ def finish(ctx, mod, write_evidence=True):
         with open(rpath, 'w') as fh:
             json.dump({'property': ctx.prop, 'mechanism': mech, 'message': v['message'],
                        'count_in_run': v['count'], 'seed': ctx.seed, 'tier': ctx.tier,
-                       'case': v['case'], 'witness': v['witness'], 'optimize': v.get('optimize', 0)}, fh, indent=1)
+                       'case': v['case'], 'witness': v['witness'], 'optimize': v.get('optimize', 0), 'tty': v.get('tty', False)}, fh, indent=1)
         rel = os.path.relpath(rpath, VERIF)
         lines.append(f"VIOLATION property={ctx.prop} replay={rel} mechanism={mech} "
                      f"count={v['count']} :: {v['message'][:300]}")
